@@ -130,8 +130,12 @@ func (obj *Package) Use(pkg *Package) {
 		PackagePanic(NewScope(), 0, obj, "Package %s is locked and can not be modified.", obj)
 	}
 	if obj != pkg {
-		obj.mu.Lock()
+		// The used package is locked before the package using it, the
+		// order Export, Define, SetIfHas and the others take when they go
+		// from a package to its users. The opposite order here lets two
+		// routines wait for each other.
 		pkg.mu.Lock()
+		obj.mu.Lock()
 		defer func() {
 			obj.mu.Unlock()
 			pkg.mu.Unlock()
@@ -190,6 +194,8 @@ func (obj *Package) Unuse(pkg *Package) {
 		PackagePanic(NewScope(), 0, obj, "Package %s is locked and can not be modified.", obj)
 	}
 	if obj != pkg {
+		// The used package first, see Use.
+		pkg.mu.Lock()
 		obj.mu.Lock()
 		defer obj.mu.Unlock()
 		found := false
@@ -201,9 +207,9 @@ func (obj *Package) Unuse(pkg *Package) {
 			}
 		}
 		if !found {
+			pkg.mu.Unlock()
 			return // not used: nothing to take away
 		}
-		pkg.mu.Lock()
 		for i, p := range pkg.Users {
 			if obj.Name == p.Name {
 				pkg.Users = append(pkg.Users[:i], pkg.Users[i+1:]...)
@@ -358,13 +364,13 @@ func (obj *Package) withdrawFunc(name string, fi *FuncInfo, self bool) {
 
 // Import another package variable
 func (obj *Package) Import(pkg *Package, varName string) {
+	// The package imported from first, see Use.
+	if obj != pkg {
+		pkg.mu.Lock()
+	}
 	obj.mu.Lock()
-	pkg.mu.Lock()
-	defer func() {
-		obj.mu.Unlock()
-		pkg.mu.Unlock()
-	}()
 	name := strings.ToLower(varName)
+	found := true
 	if vv := pkg.vars[name]; vv != nil {
 		obj.vars[name] = vv
 		obj.Imports[name] = &Import{Pkg: pkg, Name: name}
@@ -372,6 +378,15 @@ func (obj *Package) Import(pkg *Package, varName string) {
 		obj.funcs[name] = fi
 		obj.Imports[name] = &Import{Pkg: pkg, Name: name}
 	} else {
+		found = false
+	}
+	obj.mu.Unlock()
+	if obj != pkg {
+		pkg.mu.Unlock()
+	}
+	if !found {
+		// Made without the mutexes, making a condition looks classes and
+		// functions up in the packages.
 		PackagePanic(NewScope(), 0, obj, "%s is not a variable or function in %s", name, pkg)
 	}
 }
